@@ -48,7 +48,7 @@ impl Sim for GetRecordSim {
             id: "C05",
             level: "exploration",
             modes: vec!["orderly", "adversarial"],
-            quick_runs: 10_000,
+            quick_runs: 6_000,
             thorough_runs: 400_000,
             rule: "One run = 1..4 callers of the real Network::get_record_from_network for one key (own quorum One/Majority/All/N(2), optional expected record) arriving before/between/after replies, and a seeded stream of kad progress events fed to the real handlers: FoundRecord from 0..8 peers holding 1..4 versions (opaque, registers incl. unverifiable ones, transaction sets, scratchpads valid/unsigned/forged/equal counters, mixed kinds), duplicates, and a terminal event (finished, not found, quorum failed, timeout). Mode orderly: every peer answers once, versions of one kind; mode adversarial: duplicates, late callers, mixed kinds, early terminals. Each caller's outcome is checked against its OWN quorum and target. Non-trivial = >=3 operations and (>=1 duplicated/late/terminal-before-quorum event or non-FIFO decision); distinct = fingerprint of the event and scheduling sequence.",
             assumptions: vec![
